@@ -1037,6 +1037,31 @@ class Logic:
         fn = call.func
         if isinstance(fn, ast.Name) and fn.id in ('bool',) and len(call.args) == 1:
             return self.dnf(call.args[0], fr, pol, depth)
+        if isinstance(fn, ast.Name) and fn.id in ('all', 'any') and len(call.args) == 1 and isinstance(
+                call.args[0], (ast.GeneratorExp, ast.ListComp)) and len(call.args[0].generators) == 1:
+            from .skel import quantified
+            comp = call.args[0]
+            g = comp.generators[0]
+            vs = [self.canon.c(x, fr) for x in ast.walk(g.target) if isinstance(x, ast.Name)]
+            it = self.canon.c(g.iter, fr)
+            body = comp.elt
+            for c_ in g.ifs:       # all(P for x if C) == all(not C or P); any(P for x if C) == any(C and P)
+                if fn.id == 'all':
+                    body = ast.BoolOp(op=ast.Or(), values=[ast.UnaryOp(op=ast.Not(), operand=c_), body])
+                else:
+                    body = ast.BoolOp(op=ast.And(), values=[c_, body])
+            # all(P) true / any(P) false are universal; the other two existential
+            universal = (fn.id == 'all') == pol
+            inner_pol = True if fn.id == 'all' else False
+            if universal:
+                alts = self.dnf(body, fr, inner_pol, depth)
+                if len(alts) == 1:
+                    return [[quantified('forall', vs, it, l) for l in alts[0]]]
+                return [[Lit('forall %s in %s: %s' % (','.join(vs), it, self.canon.c(body, fr)), inner_pol)]]
+            alts = self.dnf(body, fr, not inner_pol, depth)
+            if len(alts) == 1 and len(alts[0]) == 1:
+                return [[quantified('exists', vs, it, alts[0][0])]]
+            return [[Lit('exists %s in %s: %s' % (','.join(vs), it, self.canon.c(body, fr)), not inner_pol)]]
         if isinstance(fn, ast.Name) and fn.id in ('all', 'any'):
             return None
         cals, exact = self.canon.repo.resolve_call(call, fr.func)
